@@ -33,8 +33,9 @@ ASSUMPTIONS = [
 REAL_VS_STUB = "real: mici transitions, integrators, solvers, systems, matrices; stub: user model functions misbehave on command (Hooked wrappers)"
 WALL_CAP_S = {"quick": 400, "thorough": 3300}
 MIN_EVALUATIONS = {"quick": 500, "thorough": 5000}
-N = {"quick": 40, "thorough": 900}
-MAX_FAULTS_PER_SCENARIO = {"quick": 140, "thorough": 400}
+N = {"quick": 40, "thorough": 800}
+TASK_TIMEOUT_S = {"quick": 300, "thorough": 1500}
+MAX_FAULTS_PER_SCENARIO = {"quick": 140, "thorough": 300}
 
 
 def scenarios(tier, seed):
